@@ -3,4 +3,4 @@ from lib import queuefam
 
 
 def main(ctx, replay):
-    return queuefam.run_property(ctx, "C03", 150, 3000)
+    return queuefam.run_property(ctx, "C03", 150, 3000, extra=lambda *a: __import__("lib.c03conc", fromlist=["run"]).run(*a[:3]), extra_prop_files=("C03conc",))
